@@ -75,6 +75,10 @@ CLAIMED = {
             "For each enumerated block configuration and every g z3 proves block(g.x) = g.block(x) for ALL inputs and ALL learnable parameter values "
             "(and patch-multiple shifts for pooling); max-pool under the statement's unique-maximiser precondition.",
             "Spectral lemma behind eigh is ASSUMED (stub contract + column-sign obligation), see DESIGN 2.3; activations uninterpreted; bounded N (2..6), channels<=4.", "4/C08"),
+    "C10": (JX, "symbolic execution of the jaxprs of GroupAverage / Climate1D / ModelWrapper with the inner model as an uninterpreted function; z3 (QF_UFLRA)",
+            "For each enumerated group, signature and layout z3 proves GA(h.x) = h.GA(x) for every h in G and EVERY inner model, GA = inner when averaging is off, "
+            "the equator-flip commutation, from1d(to1d(x)) = x, to1d(lonflip.x) = flip.to1d(x), ModelWrapper's channel placement.",
+            "Inner model reads blocks by type; N=3 (d=2), 2 (d=3); 1/|G| enters at the exact value of the float32 the code multiplies by.", "4/C10"),
 }
 
 NOT_YET = {}
